@@ -12,6 +12,7 @@ pub fn run(which: &str) {
         "c05_fee" => crate::c05::run(),
         "c08_redeemers" => crate::c08::run(),
         "c09_data" => crate::c08::run_c09(),
+        "c17_collide" => c17_collide(),
         _ => panic!("unknown scenario {which}"),
     }
 }
@@ -113,4 +114,27 @@ fn c13_inputs() {
         });
         match r { Ok(m) => println!("{:62} -> {}", name, m), Err(_) => println!("{:62} -> analysis clean; lowering PANIC", name) }
     }
+}
+
+fn c17_collide() {
+    let src = "party Owner; tx t(owner: Int) { input s { from: Owner, min_amount: Ada(owner), } output { to: Owner, amount: Ada(owner), } }";
+    let mut ws = tx3_lang::Workspace::from_string(src.to_string());
+    ws.analyze().unwrap();
+    println!("party `Owner` + parameter `owner`: analysis errors = {}", ws.analisis().unwrap().errors.len());
+    ws.lower().unwrap();
+    let params = reduce::find_params(ws.tir("t").unwrap());
+    println!("find_params = {:?}", params);
+    let src2 = "party P; tx t() { input a { from: P, min_amount: Ada(1000000), } input A { from: P, min_amount: Ada(1000000), } output { to: P, amount: a + A - fees, } }";
+    let mut ws = tx3_lang::Workspace::from_string(src2.to_string());
+    ws.analyze().unwrap();
+    println!("inputs `a` and `A`: analysis errors = {}", ws.analisis().unwrap().errors.len());
+    ws.lower().unwrap();
+    let q = reduce::find_queries(ws.tir("t").unwrap());
+    println!("find_queries keys = {:?}", q.keys().collect::<Vec<_>>());
+    let a = addr(ADDR_A);
+    let store = Store(vec![utxo(2, 0, &a, 50_000_000), utxo(3, 0, &a, 60_000_000)]);
+    let args: BTreeMap<String, ArgValue> = BTreeMap::from([("p".to_string(), ArgValue::Address(a.clone()))]);
+    let mut c = crate::c14::cm_compiler();
+    let r = pollster::block_on(tx3_resolver::resolve_tx(AnyTir::V1Beta0(ws.tir("t").unwrap().clone()), &args, &mut c, &store, 10));
+    match r { Ok(x) => { let t = pallas::ledger::traverse::MultiEraTx::decode(&x.payload).unwrap(); let b = &t.as_conway().unwrap().transaction_body; println!("resolved: inputs = {:?}", b.inputs.iter().map(|i| (i.transaction_id.to_string()[..4].to_string(), i.index)).collect::<Vec<_>>()); } Err(e) => println!("resolve error: {e}") }
 }
